@@ -198,8 +198,9 @@ class FieldData:
                "cannot be renamed to {}\n".format(value)+
                "Line or ID not unique\n"+
                "Matching previous line: {}".format(str(previous)))
-         if self.vlevel >= 3 and value is not None:
+         if value is not None:
            # before the line is unregistered: a refused name changes nothing
+           # (the line is registered under the name, whatever the vlevel is)
            gfapy.Field._validate_gfa_field(value,
                self._field_datatype(fieldname), fieldname)
          self._gfa._unregister_line(self)
